@@ -399,7 +399,7 @@ func generate(c *drv.Ctx) {
 		for _, k := range itemKinds {
 			for _, cf := range cfs {
 				for _, f := range allFlags(l, false) {
-					if !thorough && f.AE && f.Def {
+					if !thorough && f.AE {
 						continue
 					}
 					d := Decl{In: l.In, Enc: l.Enc, Name: declName(l), Type: "array", IType: k.T, IFmt: k.F, CF: cf, Required: f.Req, HasDef: f.Def, AllowEmpty: f.AE, Val: noVal()}
